@@ -113,6 +113,7 @@ type FuncSpec struct {
 	Ensures  []Clause
 	Modifies []Expr
 	HasMod   bool // a modifies clause (possibly empty "modifies nothing") was given
+	ModAny   bool // "modifies anything": no frame is claimed (entry points that run arbitrary handlers); callers under contract are refused
 	Loops    map[int]*LoopSpec
 	Unfolds  []Expr
 	Applies  []Expr // lemma applications at function entry
@@ -702,6 +703,10 @@ func ParseContractFile(path string, src []byte, ps *PkgSpec) error {
 			case rc.kw == "modifies":
 				cur.Modifies = append(cur.Modifies, es...)
 				cur.HasMod = true
+				if strings.TrimSpace(rc.text) == "anything" {
+					cur.ModAny = true
+					cur.Modifies = nil
+				}
 			case curLoop != nil:
 				curLoop.Unfolds = append(curLoop.Unfolds, es...)
 			default:
